@@ -329,6 +329,15 @@ let sem_class (e : expr) (sql : string) : string =
   let str_leaf v = match v with VExp (E (VStr _, Literal, _, _, _)) -> true | _ -> false in
   let num_leaf v = match v with VExp (E ((VInt _ | VFloat _), Literal, _, _, _)) -> true | _ -> false in
   let float_leaf v = match v with VExp (E (VFloat _, Literal, _, _, _)) -> true | _ -> false in
+  (* K3 is about float ranges whose bounds the inline form cannot hold: more than two decimals (0.125 is written 0.12), or an integer beyond 2^53 next to a float bound; other float ranges are not of the class *)
+  let two_decimals v = match v with
+    | VExp (E (VFloat f, Literal, _, _, _)) ->
+        (match q_of_float_bits f with
+         | Some q -> Z.eqb (Z.modulo (Z.mul (z_of_int64 100L) q.qnum) (Zpos q.qden)) Z0
+         | None -> false)
+    | VExp (E (VInt z, Literal, _, _, _)) -> (* next to a float bound an integer goes through float64: exact up to 2^53 *)
+        z_in_int64 z && Int64.abs (int64_of_z z) <= 9007199254740992L
+    | _ -> true in
   let star v = is_star v in
   let has p = exists_node p e in
   let qstar v = match v with VExp (E (VStr s, Literal, _, _, _)) -> string_of_chars s = "*" | _ -> false in
@@ -339,7 +348,7 @@ let sem_class (e : expr) (sql : string) : string =
   else if has (fun n -> match n with E (_, Range, VBound (a, b, _), _, _) -> qstar a || qstar b | E (VStr s, Literal, _, _, _) -> string_of_chars s = "*" | _ -> false) then "K6"
   else if has (fun n -> match n with E (_, Range, VBound (a, b, _), _, _) -> (star a && str_leaf b) || (str_leaf a && star b) | _ -> false) then "K2"
   else if has (fun n -> match n with E (_, Range, VBound (a, b, false), _, _) -> (str_leaf a || str_leaf b) | _ -> false) then "K1"
-  else if has (fun n -> match n with E (_, Range, VBound (a, b, _), _, _) -> (float_leaf a || float_leaf b) || (num_leaf a && str_leaf b) || (str_leaf a && num_leaf b) | _ -> false) then "K3"
+  else if has (fun n -> match n with E (_, Range, VBound (a, b, _), _, _) -> ((float_leaf a || float_leaf b) && not (two_decimals a && two_decimals b)) || (num_leaf a && str_leaf b) || (str_leaf a && num_leaf b) | _ -> false) then "K3"
   else if contains sql " SIMILAR TO " && has (fun n -> match n with E (VStr p, Wild, _, _, _) -> List.exists (fun c -> String.contains (string_of_chars p) c) ['_'; '%'; '|'; '+'; '('; ')'; '['; ']'; '{'; '}'; '\\'] | _ -> false) then "K11"
   else ""
 
@@ -914,6 +923,7 @@ let check_d (q : string) (spec : string) (o : string array) input =
   (* property: post-order fold, every node once; a missing function anywhere makes Render fail with no text *)
   checked "C15"; nontrivial "C15";
   if Array.length o > 3 && o.(3) <> "ok" then fail "C15" "drivers-share-state" input [("observed", o.(3))];
+  if Array.length o > 4 && o.(4) <> "ok" then fail "C15" "function-registered-for-a-custom-operator-not-called-once-with-the-rendered-operands" input [("observed", o.(4))];
   if is_bad o.(1) then fail "C15" "custom-render-panics" input [("observed", o.(1))] else begin
     let rec post (e : expr) : int list = match e with E (l, op, r, _, _) -> postv l @ postv r @ [opnum op]
     and postv v = match v with VExp e -> post e | VList l -> List.concat_map post l | VBound (a, b, _) -> postv a @ postv b | _ -> [] in
